@@ -4,7 +4,7 @@ from vf.core import B, cstr, cZ, cbool, clist, copt, cpair
 PID = "C19"
 MODULES = ["Prelude", "C13_Model", "C19_Model", "C19_Spec", "C19_Check"]
 PROPS_MODULE = "C19_Properties"
-THEOREMS = ["C19_ack_persisted", "C19_ack_durable", "C19_stop_flushes", "C19_load_exact",
+THEOREMS = ["C19_graceful_stop_survives_transient_failures", "C19_ack_persisted", "C19_ack_durable", "C19_stop_flushes", "C19_load_exact",
             "C19_deleted_stay_deleted", "C19_deleted_race_locked", "C19_deleted_race_refuted",
             "C19_save_race_locked", "C19_save_race_refuted",
             "C13_store_shard_filter"]
@@ -120,6 +120,17 @@ def corpus():
             {"op": "save", "c": cond(b"a.g1", b"a", 1, 1, 1)}, {"op": "save", "c": cond(b"b.g1", b"b", 2, 2, 2)},
             {"op": "stop", "plan": [{"name": B(b"a.g1"), "q": q}, {"name": B(b"b.g1"), "q": q}]},
             {"op": "stop"}, {"op": "stop"},
+            {"op": "restart", "shard": 0, "wt": False}, {"op": "load", "o": "ok"}]})
+    # graceful stop through the limiter's own retry (stopLimitStoreWithRetry, 2 s between attempts): k = 0, 1, 2
+    # failing flushes (transient / conflicts exhausted / not-found then already-exists), periodic mode, pending
+    # conditions; the next holder must load all of them
+    for q in ([], ["transient"], ["conflict"] * 5 + ["notfound", "exists"]):
+        cs.append({"n": 1, "init": [cond(b"c.g1", b"c", 0, 0, 0)], "ops": [
+            {"op": "restart", "shard": 0, "wt": False}, {"op": "load", "o": "ok"},
+            {"op": "save", "c": cond(b"a.g1", b"a", 1, 1, 1)}, {"op": "save", "c": cond(b"b.g1", b"b", 2, 2, 2)},
+            {"op": "save", "c": cond(b"c.g1", b"c", 3, 3, 3)},
+            {"op": "gstop", "shard": 0, "plan": ([{"name": B(b"a.g1"), "q": q}] if q else [])},
+            {"op": "gstop", "shard": 0},
             {"op": "restart", "shard": 0, "wt": False}, {"op": "load", "o": "ok"}]})
     # delete retries exhausted / delete of something absent / delete-upstream failing half-way
     cs.append({"n": 1, "init": [], "ops": [
@@ -247,6 +258,14 @@ def gen_hist(rng, wfok=True, nops=(6, 16)):
         elif k < 76:
             op = {"op": "stop"}
             names = [nm(u, i) for u in UPS for i in INST]
+            if GSTOP_RATE and rng.chance(1, GSTOP_RATE):
+                # graceful stop through the limiter's retry wrapper: at most one failing attempt (it sleeps 2 s)
+                op = {"op": "gstop", "shard": 0}
+                if saved and rng.chance(1, 2):
+                    key = rng.choice(sorted(set(saved)))
+                    op["plan"] = [{"name": B(key[1]), "q": rng.choice([["transient"], ["conflict"] * 5, ["notfound", "exists"]])}]
+                ops.append(op)
+                continue
         elif k < 84:
             op = {"op": "load", "o": rng.choice(["ok", "ok", "ok", "transient", "notfound", "crash"])}
             names = []
@@ -285,8 +304,9 @@ def gen_hist(rng, wfok=True, nops=(6, 16)):
 
 def generate(rng, tier, scale=1):
     # thorough: 2000 sequences in shards of 80 (one coqc start-up costs about as much as evaluating 15 cases)
-    global COQ_SHARD
+    global COQ_SHARD, GSTOP_RATE
     COQ_SHARD = 30 if tier == "quick" else 80
+    GSTOP_RATE = 0 if tier == "quick" else 6      # the real retry sleeps 2 s: generated ones only in the thorough tier
     k = (290 if tier == "quick" else 2000) * scale
     cs = []
     for i in range(k):
@@ -299,6 +319,7 @@ def generate(rng, tier, scale=1):
     return cs
 
 
+GSTOP_RATE = 0
 HARNESS_CHUNK = 40
 COQ_SHARD = 30
 
@@ -361,6 +382,8 @@ def c_op(o, s, prev=None):
         return "(OFlush %s %s %s)" % (c_keys(s.get("ord") or []), clist(inter), c_plan(o.get("plan")))
     if k == "stop":
         return "(OStop %s %s)" % (c_keys(s.get("ord") or []), c_plan(o.get("plan")))
+    if k == "gstop":
+        return "(OGStop %s %s)" % (clist([c_keys(a["ord"]) for a in s.get("atts") or []]), c_plan(o.get("plan")))
     if k == "load":
         return "(OLoad %s)" % OUT[o.get("o") or "ok"]
     if k == "restart":
@@ -379,15 +402,15 @@ def c_obs(o, s):
                 r = iobs[i][j].get("res") or ""
             row.append("None" if r == "" else "(Some %s)" % RES[r])
         ipos.append(clist(row))
-    return "(mkObs %s %s %s %s %s)" % (RES[s["res"]], clist([RES[x] for x in s.get("ires") or []]), clist(ipos),
-                                     c_api(s["api"]), c_loc(s["loc"]))
+    return "(mkObs %s %s %s %s %s %s)" % (RES[s["res"]], clist([RES[x] for x in s.get("ires") or []]), clist(ipos),
+                                        c_api(s["api"]), c_loc(s["loc"]), clist([RES[a["res"]] for a in s.get("atts") or []]))
 
 
 def coq_case(case, obs):
     steps = obs.get("steps") if isinstance(obs, dict) else None
     if steps is None or len(steps) != len(case["ops"]):
         # a panic inside the harness: emit a one-step trace the model cannot agree with
-        return "(CHist 1 [] [(ORestart 0 true, mkObs RBad [] [] [] [])])"
+        return "(CHist 1 [] [(ORestart 0 true, mkObs RBad [] [] [] [] [])])"
     tr = [cpair(c_op(o, s, steps[k - 1] if k else None), c_obs(o, s)) for k, (o, s) in enumerate(zip(case["ops"], steps))]
     return "(CHist %s %s %s)" % (cZ(case["n"]), c_api(case["init"]), clist(tr))
 
